@@ -108,6 +108,60 @@ def l_pair(dim, s1, s2):
     return lemma
 
 
+NAMES = {"xy": ("x", "y"), "rhophi": ("rho", "phi"), "z": ("z",), "theta": ("theta",), "eta": ("eta",), "t": ("t",), "tau": ("tau",)}
+MODOF = {"x": "planar", "y": "planar", "rho": "planar", "phi": "planar", "z": "spatial", "theta": "spatial", "eta": "spatial", "t": "lorentz", "tau": "lorentz"}
+
+
+def convert(coords, s_from, s_to):
+    """the same vector re-expressed in system s_to by the library's own accessor kernels (at 60 digits): shared coordinates are
+    copied, the others recomputed exactly as the mixed-system comparison kernels recompute them"""
+    import importlib
+    from .. import numlib as NL
+    from ..views import BYNAME
+    nf = [n for g in s_from for n in NAMES[g]]
+    have = dict(zip(nf, coords))
+    out = []
+    for g in s_to:
+        for n in NAMES[g]:
+            if n in have:
+                out.append(have[n])
+                continue
+            pk = MODOF[n]
+            k = {"planar": 1, "spatial": 2, "lorentz": 3}[pk]
+            m = importlib.import_module(f"vector._compute.{pk}.{n}")
+            f = m.dispatch_map[tuple(BYNAME[x] for x in s_from[:k])][0]
+            out.append(NL.run_real(f, list(coords[: k + 1])))
+    return out
+
+
+def structured_pairs(s1, s2):
+    """correlated operand pairs for the numeric refuter: b is a re-expressed in s2 (and vice versa), then one coordinate nudged -
+    the 'identical' and 'differ in exactly one component' strata of the statement, which independent random draws never reach"""
+    def gen(vals):
+        import mpmath as mp
+        a, b, rest = list(vals[0]), list(vals[1]), list(vals[2:])
+        out = []
+        try:
+            b2 = convert(a, s1, s2)
+            out.append(("b := a re-expressed", [a, b2] + rest))
+            for i in range(len(b2)):
+                b3 = list(b2)
+                b3[i] = b3[i] + mp.mpf(1) / 8
+                out.append((f"b := a re-expressed, coordinate {i} + 1/8", [a, b3] + rest))
+        except Exception:
+            pass
+        try:
+            a2 = convert(b, s2, s1)
+            out.append(("a := b re-expressed", [a2, b] + rest))
+            a3 = list(a2)
+            a3[0] = a3[0] + mp.mpf(1) / 8
+            out.append(("a := b re-expressed, coordinate 0 + 1/8", [a3, b] + rest))
+        except Exception:
+            pass
+        return out
+    return gen
+
+
 def l_reflexive(dim, s):
     pk, g = PK[dim], ",".join(s)
 
@@ -138,7 +192,7 @@ for _d in (2, 3, 4):
         LEMMAS.append(LemmaJob("C12", f"{PK[_d]}[{','.join(_s)}]/reflexive", l_reflexive(_d, _s), cases=tau_cases(_s)))
     for _s1 in systems(_d):
         for _s2 in systems(_d):
-            LEMMAS.append(LemmaJob("C12", f"{PK[_d]}[{','.join(_s1)};{','.join(_s2)}]/coherence", l_pair(_d, _s1, _s2), cases=tau_cases(_s1, _s2)))
+            LEMMAS.append(LemmaJob("C12", f"{PK[_d]}[{','.join(_s1)};{','.join(_s2)}]/coherence", l_pair(_d, _s1, _s2), cases=tau_cases(_s1, _s2), structured=structured_pairs(_s1, _s2)))
 
 
 def main(argv):
